@@ -843,8 +843,8 @@ func (e *env) reads(tier string) []string {
 			}
 		case 2: // forward scan first
 			e.scanCase(&lines, "first", h.ts1, nil, nil, batchSizes[r.Intn(4)], false, false, true)
-		default: // reverse scan first (bounded above so that F08b does not hide the lock paths)
-			e.scanCase(&lines, "first", h.ts1, nil, []byte("\xff\xff\xff"), batchSizes[r.Intn(4)], false, true, true)
+		default: // reverse scan from the end of the key space first
+			e.scanCase(&lines, "first", h.ts1, nil, nil, batchSizes[r.Intn(4)], false, true, true)
 		}
 	}
 	first()
@@ -863,7 +863,11 @@ func (e *env) reads(tier string) []string {
 	// scans: full range in every batch size, both directions
 	for _, b := range batchSizes {
 		e.scanCase(&lines, "full", h.ts1, nil, nil, b, r.Intn(4) == 0, false, r.Intn(2) == 0)
-		e.scanCase(&lines, "full", h.ts1, nil, []byte("\xff\xff\xff"), b, r.Intn(4) == 0, true, r.Intn(2) == 0)
+		var top []byte
+		if r.Intn(3) == 0 {
+			top = []byte("\xff\xff\xff")
+		}
+		e.scanCase(&lines, "full", h.ts1, nil, top, b, r.Intn(4) == 0, true, r.Intn(2) == 0)
 	}
 	nb := 6
 	if tier == "thorough" {
@@ -898,9 +902,9 @@ func (e *env) reads(tier string) []string {
 		e.scanCase(&lines, "eq-border", h.ts1, lo, lo, batchSizes[r.Intn(4)], false, false, false)
 	}
 	// reverse scans from the end of the key space (F08b class when there is more than one region)
-	e.scanCase(&lines, "rev-unbounded", h.ts1, nil, nil, batchSizes[r.Intn(4)], false, true, false)
+	e.scanCase(&lines, "rev-unbounded", h.ts1, nil, nil, batchSizes[r.Intn(4)], false, true, r.Intn(2) == 0)
 	if r.Intn(2) == 0 {
-		e.scanCase(&lines, "rev-unbounded", h.ts1, e.randBound(r), nil, batchSizes[r.Intn(4)], false, true, false)
+		e.scanCase(&lines, "rev-unbounded", h.ts1, e.randBound(r), nil, batchSizes[r.Intn(4)], false, true, r.Intn(2) == 0)
 	}
 	// move the timestamp of the warm snapshot: cached answers of ts1 must not leak
 	s1.SetSnapshotTS(h.ts2)
@@ -992,11 +996,48 @@ func (e *env) reads(tier string) []string {
 	return lines
 }
 
+// directed regression (the former F08/F08b witness): keys a..h, regions split at "c" and "f",
+// IterReverse from the end of the key space with and without a lower bound
+const regressionHID = 99999
+
+func regressionHistory() *history {
+	h := &history{hid: regressionHID, rnd: rand.New(rand.NewSource(1))}
+	for c := byte('a'); c <= 'h'; c++ {
+		h.keys = append(h.keys, []byte{c})
+	}
+	h.layout = [][]byte{[]byte("c"), []byte("f")}
+	for i := 0; i < 4; i++ {
+		t := txnSpec{kind: kCommitted, start: tsAt(i+1, 0), commit: tsAt(i+1, 5), ttl: 100}
+		for j := 0; j < 2; j++ {
+			t.keys = append(t.keys, h.keys[2*i+j])
+			t.del = append(t.del, false)
+			t.vals = append(t.vals, []byte{'v', h.keys[2*i+j][0]})
+		}
+		h.txns = append(h.txns, t)
+	}
+	h.ts1, h.ts2 = tsAt(9, 0), tsAt(9, 0)
+	return h
+}
+
+func (e *env) regressionReads() []string {
+	var lines []string
+	for _, b := range []int{256, 2, 3} {
+		e.scanCase(&lines, "regression-f08", e.h.ts1, nil, nil, b, false, true, false)
+		for _, lo := range []string{"c", "b", "f", "g\x00"} {
+			e.scanCase(&lines, "regression-f08", e.h.ts1, []byte(lo), nil, b, false, true, false)
+		}
+	}
+	return lines
+}
+
 func runHistory(seed int64, hid int, tier string) {
 	if hung {
 		return
 	}
 	h := genHistory(seed, hid, tier)
+	if hid == regressionHID {
+		h = regressionHistory()
+	}
 	// a third of the histories use the asynchronous batch-get API, a quarter ask for commit timestamps
 	asyncBG := hid%3 == 0
 	withCommitTS = hid%4 == 1
@@ -1005,7 +1046,12 @@ func runHistory(seed int64, hid int, tier string) {
 	e := newEnv(h)
 	defer e.store.Close()
 	e.build()
-	lines := e.reads(tier)
+	var lines []string
+	if hid == regressionHID {
+		lines = e.regressionReads()
+	} else {
+		lines = e.reads(tier)
+	}
 	// quiescence: let asynchronous lock resolution finish (it only moves committed data from a
 	// lock to a write record; the truth below is the same before and after)
 	time.Sleep(2 * time.Millisecond)
@@ -1150,6 +1196,7 @@ func main() {
 		n = v
 	}
 	runClassify(seed, 300)
+	runHistory(seed, regressionHID, tier)
 	for hid := 1; hid <= n; hid++ {
 		runHistory(seed, hid, tier)
 	}
